@@ -207,6 +207,7 @@ pub fn run(args: &Args) -> i32 {
     for (name, cfg) in &configs {
         let d = if *name == "single-target" { full_depth } else if *name == "two-targets" { full_depth - 1 } else { full_depth - 1 - usize::from(tier == Tier::Quick) };
         let al = full_alphabet(cfg.targets);
+        explore::set_phase_slice((tier == Tier::Thorough).then_some(180));
         let r = explore::bfs(cfg, &al, &[], d, usize::MAX, no_check);
         states += r.states;
         transitions += r.transitions;
@@ -234,6 +235,7 @@ pub fn run(args: &Args) -> i32 {
             let al = projected(proj, cfg.targets);
             let depth = if tier == Tier::Thorough { 9 } else if proj == "modes" { 4 } else if proj == "navigation" { 5 } else { 6 };
             let cap = if tier == Tier::Thorough { 60_000 } else { 2_500 };
+            explore::set_phase_slice((tier == Tier::Thorough).then_some(180));
             let r = explore::bfs(cfg, &al, &[], depth, cap, no_check);
             states += r.states;
             transitions += r.transitions;
@@ -252,6 +254,7 @@ pub fn run(args: &Args) -> i32 {
     for (name, cfg) in [("flow-cap-3", base.clone()), ("flow-cap-2", WorldCfg { max_flows: 2, ..base.clone() }), ("flow-cap-1", WorldCfg { max_flows: 1, ..base.clone() })] {
         let al = with_races(&projected("flows", cfg.targets));
         let depth = if tier == Tier::Thorough { 10 } else { 8 };
+        explore::set_phase_slice((tier == Tier::Thorough).then_some(180));
         let r = explore::bfs(&cfg, &al, &[], depth, if tier == Tier::Thorough { 100_000 } else { 6_000 }, no_check);
         states += r.states;
         transitions += r.transitions;
@@ -267,6 +270,7 @@ pub fn run(args: &Args) -> i32 {
     {
         let al = with_races(&projected("details", base.targets));
         let depth = if tier == Tier::Thorough { 16 } else { 12 };
+        explore::set_phase_slice((tier == Tier::Thorough).then_some(180));
         let r = explore::bfs(&base, &al, &[], depth, if tier == Tier::Thorough { 200_000 } else { 20_000 }, no_check);
         states += r.states;
         transitions += r.transitions;
@@ -297,6 +301,7 @@ pub fn run(args: &Args) -> i32 {
             al.extend(traces.into_iter().map(|(t, i)| Ev::Trace(t, i)));
             let al = with_races(&al);
             let depth = if tier == Tier::Thorough { 16 } else { 10 };
+            explore::set_phase_slice((tier == Tier::Thorough).then_some(180));
             let r = explore::bfs(cfg, &al, &[], depth, if tier == Tier::Thorough { 150_000 } else { 1_200 }, no_check);
             states += r.states;
             transitions += r.transitions;
@@ -327,7 +332,9 @@ pub fn run(args: &Args) -> i32 {
             };
             let t0 = Instant::now();
             let root = vec![Ev::Trace(TraceEv::Path3, 0), Ev::Key("toggle_settings")];
+            explore::set_phase_slice((tier == Tier::Thorough).then_some(180));
             let fix = explore::bfs(cfg, &nav, &root, 120, usize::MAX, no_check);
+            explore::set_phase_slice((tier == Tier::Thorough).then_some(180));
             let r = explore::bfs_roots(cfg, &al, &fix.reached, k, usize::MAX, &|_| 0, usize::MAX, no_check);
             states += r.states;
             transitions += fix.transitions + r.transitions;
@@ -361,7 +368,8 @@ pub fn run(args: &Args) -> i32 {
         }
     }
     let n_states = reached_for_sizes.len();
-    let stride = if tier == Tier::Quick { (n_states / 24).max(1) } else { 1 };
+    // thorough: at most 4000 states x ~800 sizes (every state would be tens of millions of frames)
+    let stride = if tier == Tier::Quick { (n_states / 24).max(1) } else { (n_states / 4000).max(1) };
     let picked: Vec<usize> = (0..n_states).step_by(stride).collect();
     let picked_states: Vec<(WorldCfg, Vec<Ev>)> = if start.elapsed().as_secs_f64() > budget_s * 1.5 { vec![] } else { picked.iter().map(|i| reached_for_sizes[*i].clone()).collect() };
     let redraws = (picked_states.len() * sizes.len()) as u64;
@@ -382,7 +390,11 @@ pub fn run(args: &Args) -> i32 {
     rep.set("redraws_at_other_sizes", json!(redraws));
     rep.set("terminal_sizes", json!(sizes.len()));
     rep.set("phases", json!(phases));
-    rep.set("rule", json!("state = history of events replayed on a fresh real TuiApp (+ real un-started Tracers fed by verif_apply_round) drawn with the real render on a TestBackend; events = every binding of run_app's dispatch chain under the same mode gating (46 commands; table checked against the source at start-up) + 8 trace updates per target (3-hop path, shorter path, other ECMP branch, nothing answers, nothing answers with the target distance carried over from an earlier round, failed probes, 5-hop path with unknown hop, fatal error); each step does what one turn of run_app does (snapshot/clamp/order unless frozen, draw). Level-synchronous BFS de-duplicated on a canonical key (UI fields verbatim, trace state by shape); full alphabet to the depth bound per configuration, projected alphabets towards a fixpoint (navigation, settings, modes; details x freeze x clear to depth 12 / 16, and five more feature x freeze x clear alphabets (flows, chart/map, hosts, privacy x flows, two targets) to depth 10 / 16; flows: three distinct paths against flow caps 1, 2, 3); settings dialog: navigation fixpoint (every tab, every row), then every sequence of <= 2 (quick; 1 on the column-set variants; 3 thorough) dialog events from every navigation state; every picked reached state re-drawn at the listed terminal sizes. Oracle: no panic in any command, loop-top or draw; selected hop/address/flow/trace/settings tab refer to existing entries before every draw"));
+    rep.set("searches_cut_short_by_their_time_slice", json!(explore::phases_cut()));
+    if explore::phases_cut() > 0 {
+        rep.cap_hit.get_or_insert(format!("{} search phase(s) ended at their 3-minute time slice (thorough tier); what each covered is in `phases`", explore::phases_cut()));
+    }
+    rep.set("rule", json!("state = history of events replayed on a fresh real TuiApp (+ real un-started Tracers fed by verif_apply_round) drawn with the real render on a TestBackend; events = every binding of run_app's dispatch chain under the same mode gating (46 commands; table checked against the source at start-up) + 8 trace updates per target (3-hop path, shorter path, other ECMP branch, nothing answers, nothing answers with the target distance carried over from an earlier round, failed probes, 5-hop path with unknown hop, fatal error); each step does what one turn of run_app does (snapshot/clamp/order unless frozen, draw). Level-synchronous BFS de-duplicated on a canonical key (UI fields verbatim, trace state by shape); full alphabet to the depth bound per configuration, projected alphabets towards a fixpoint (navigation, settings, modes; details x freeze x clear to depth 12 / 16, and five more feature x freeze x clear alphabets (flows, chart/map, hosts, privacy x flows, two targets) to depth 10 / 16; flows: three distinct paths against flow caps 1, 2, 3); settings dialog: navigation fixpoint (every tab, every row), then every sequence of <= 2 (quick; 1 on the column-set variants; 3 thorough) dialog events from every navigation state; every picked reached state (quick: 24, thorough: up to 4000, evenly spaced) re-drawn at the listed terminal sizes. Oracle: no panic in any command, loop-top or draw; selected hop/address/flow/trace/settings tab refer to existing entries before every draw"));
     rep.sample(json!({"config": "single-target", "history": ["trace0:Branch", "key:toggle_flows", "key:clear_trace_data"]}));
     rep.assumptions = vec!["command table replicates run_app's dispatch (self-checked against the source text)".into(), "clock pinned; DNS cache pre-seeded (flush re-seeds at once); GeoIP from a generated fixture".into(), "counters/latencies are not part of the canonical key (DESIGN.md 3/C17)".into()];
     rep.finish()
